@@ -378,7 +378,7 @@ class Session:
                 r = self.recv().split()
                 v = struct.unpack("<d", bytes.fromhex(r[5]))[0] if len(r) >= 6 and r[1] == "val" else 0
                 return MEnum(f[1], int(v))
-            raise ProtocolFailure("unknown object in callback: " + desc)
+            return MArrayRef(slot, desc)        # an object of a class MATLAB does not know: opaque
         cls, m, n = int(f[1]), int(f[2]), int(f[3])
         data = bytes.fromhex(f[4]) if f[4] != "-" else b""
         if cls == 6:
